@@ -48,6 +48,7 @@ struct Args {
     part: Option<String>,
     replay_dir: String,
     known: Option<String>,
+    dump_hashes: Option<String>,
 }
 
 fn parse_args(a: &[String]) -> Result<Args, String> {
@@ -60,6 +61,7 @@ fn parse_args(a: &[String]) -> Result<Args, String> {
         part: None,
         replay_dir: "/verif/replays".into(),
         known: None,
+        dump_hashes: None,
     };
     let mut i = 0;
     while i < a.len() {
@@ -73,6 +75,7 @@ fn parse_args(a: &[String]) -> Result<Args, String> {
             "--part" => args.part = Some(need(i)?),
             "--replay-dir" => args.replay_dir = need(i)?,
             "--known" => args.known = Some(need(i)?),
+            "--dump-hashes" => args.dump_hashes = Some(need(i)?),
             x => return Err(format!("unknown argument {x}")),
         }
         i += 2;
@@ -361,6 +364,14 @@ fn cmd_check(a: &[String]) -> i32 {
     }
 
     let mut merged = run_parallel(&prop, args.thorough, &jobs, args.workers, &args.replay_dir, true);
+
+    if let Some(p) = &args.dump_hashes {
+        // one line per job: the hash of its complete event + verdict log (signature bytes included)
+        let mut hs = merged.hashes.clone();
+        hs.sort_unstable();
+        let txt: String = hs.iter().map(|(i, h)| format!("{i} {h:016x}\n")).collect();
+        let _ = std::fs::write(p, txt);
+    }
 
     // determinism self-check: re-execute a sample on other workers and compare full-log hashes
     let sample_n = (if args.thorough { 512 } else { 32 }).min(jobs.len());
